@@ -34,6 +34,8 @@ func Judge(sp *Spec, r *vsched.Result) []string {
 	closes := 0
 	retErr := map[string]bool{}
 	retOK := map[string]bool{}
+	injected := map[string]bool{}
+	replies := map[string]int{}
 	for _, e := range r.Events {
 		if e.Monitor != Mon {
 			continue
@@ -78,6 +80,19 @@ func Judge(sp *Spec, r *vsched.Result) []string {
 					delete(occ, g)
 				}
 				delete(open, id)
+			}
+		case "inject":
+			for _, x := range f[1:] {
+				if strings.HasPrefix(x, "reply=") && len(x) > 6 {
+					injected[x[6:]] = true
+				}
+			}
+		case "pub":
+			if injected[f[1]] && !(len(f) > 2 && strings.HasPrefix(f[2], "timeout:")) {
+				replies[f[1]]++
+				if replies[f[1]] > 1 {
+					add("C04", "request %s got %d responses", f[1], replies[f[1]])
+				}
 			}
 		case "shutdown.ret":
 			if len(f) > 1 && f[1] == "err=<nil>" {
@@ -128,6 +143,11 @@ func Judge(sp *Spec, r *vsched.Result) []string {
 	}
 	complete := !r.Deadlock && !r.Horizon
 	if complete && !sp.Shutdown {
+		for id := range injected {
+			if replies[id] != 1 {
+				add("C04", "request %s got %d responses by quiescence (want exactly one)", id, replies[id])
+			}
+		}
 		for _, id := range sp.MustRun {
 			ci := cbs[id]
 			if ci == nil || ci.enters != 1 || ci.exits != 1 {
